@@ -20,11 +20,13 @@ func init() {
 			"(R1 decoded once) property names are dictionary keys of the Info dictionary; the writer escapes keys, the parser decodes them. In the functions of pkg/pdfcpu/validate/info.go, pkg/pdfcpu/property.go and pkg/pdfcpu/keyword.go no value that is a dictionary key (the key of a range over a types.Dict, or a string parameter that receives one at a call site in these files) is handed to types.DecodeName: a second decode turns '100#25' into '100%' and rejects 'C#'. The pinned tree did exactly that (repaired, 6a8eceee). " +
 			"(R2 separators) keywords are stored as one text string: the separator the writer joins them with (the constant handed to strings.Join in finalizeKeywords), with white space trimmed, consists of characters the reader splits at (the rune constants compared in the FieldsFunc callback of validateKeywords), and the reader trims white space. " +
 			"(R3 keys) each of the three viewer settings is set and reset by one file of pkg/api: the constant keys stored into the catalog there are the same as the keys deleted there, and all of them are keys of the validator's catalog table (which is what the listing is filled from). " +
+			"(R4 depth) Node.HandleLeaf must not split a full leaf by pushing it down in place without rebalancing: the reader limits name-tree depth, sorted insertion makes the depth linear. Today it does (known finding: 255 attachments are written but none is listed). " +
 			"NOT decided: set semantics over edit histories, keywords or values that contain a separator, attachment bytes and name-tree handling (C39), the text encoding of values (C13).",
 		Rules: []string{
 			"C35.R1 like-with-like: Info dictionary keys are not name-decoded a second time",
 			"C35.R2 TABLE: the keyword writer's separator is one the keyword reader splits at",
 			"C35.R3 siblings/TABLE: set and reset of a viewer setting use the same catalog key, known to the validator",
+			"C35.R4 shape: the name-tree writer does not deepen a path by splitting a leaf in place (the reader refuses deep trees) — violated on the tree, known finding",
 		},
 		Assumptions: []string{"the parser decodes names (model.parseName calls types.DecodeName); listing reads the fields validation fills"},
 		Level:       "other",
@@ -38,6 +40,8 @@ func runC35(c *Ctx) {
 	r.MinInst["C35.R1"] = 2
 	r.MinInst["C35.R2"] = 1
 	r.MinInst["C35.R3"] = 3
+	r.MinInst["C35.R4"] = 1
+	checkNameTreeSplit(c)
 	files := []string{"pkg/pdfcpu/validate/info.go", "pkg/pdfcpu/property.go", "pkg/pdfcpu/keyword.go"}
 	inFiles := func(fn *ssa.Function) bool {
 		f := p.File(fn.Pos())
@@ -277,5 +281,48 @@ func runC35(c *Ctx) {
 		} else {
 			r.OK("C35.R3", file, construct, p.Pos(pos), fmt.Sprintf("set and reset use %v, a key of the validator's catalog table", s), true)
 		}
+	}
+}
+
+// R4 (depth): attachments live in the EmbeddedFiles name tree. The reader refuses a name tree deeper than the
+// recursion limit (strict: error; relaxed: the tree is dropped, the attachments vanish from every listing), so the
+// writer has to keep its own trees shallow. Node.HandleLeaf splits a full leaf by turning that leaf itself into an
+// intermediate node with two new kid leaves (a store into the receiver's Kids field of a slice built there): each
+// split lengthens that path by one and nothing on the insertion path (Add, updateNameTreeLimits) ever rebalances, so
+// inserting names in sorted order — what adding files f0001, f0002 … does — builds a chain whose depth grows linearly
+// (one level per two insertions with maxEntries = 3). The rule reports the push-down split; on today's tree it is a
+// genuine defect (255 attachments: depth 101 > limit 100, listing returns nothing) and is recorded as a known finding,
+// because the repair is a rebalancing insertion, not a small patch.
+func checkNameTreeSplit(c *Ctx) {
+	p, r := c.P, c.R
+	const fid = "pkg/pdfcpu/model.(*Node).HandleLeaf"
+	fn := p.Func(fid)
+	if fn == nil || len(fn.Params) == 0 {
+		r.Bad("C35.R4", fid, "anchor", "", "UNRESOLVED-ANCHOR")
+		return
+	}
+	recv := fn.Params[0]
+	n := 0
+	eachInstr(fn, func(_ *ssa.BasicBlock, _ int, i ssa.Instruction) {
+		st, ok := i.(*ssa.Store)
+		if !ok {
+			return
+		}
+		fa, ok := st.Addr.(*ssa.FieldAddr)
+		if !ok || fa.X != ssa.Value(recv) {
+			return
+		}
+		f := structField(fa.X.Type(), fa.Field)
+		if f == nil || f.Name() != "Kids" {
+			return
+		}
+		if isNilConst(st.Val) {
+			return
+		}
+		n++
+		r.Bad("C35.R4", fid, "leaf split pushes down", p.Pos(st.Pos()), "a full leaf is split by making the leaf itself an intermediate node with two new kids; nothing on the insertion path rebalances, so names inserted in sorted order build a chain whose depth grows with the number of entries — beyond the recursion limit the reader drops the whole tree and every attachment disappears from listing and extraction")
+	})
+	if n == 0 {
+		r.OK("C35.R4", fid, "leaf split pushes down", p.Pos(fn.Pos()), "the leaf handler does not deepen the tree in place", true)
 	}
 }
